@@ -884,6 +884,14 @@ class ExprRewriter(ast.NodeTransformer, EmitterMixin):
         node.body = [self.visit(stmt) for stmt in node.body]
         return node
 
+    def visit_match_case(self, node):
+        # patterns are not expressions: a constant or dotted name inside one must stay as it is
+        # (wrapping it in an emit call gives "patterns may only match literals and attribute lookups")
+        if node.guard is not None:
+            node.guard = self.visit(node.guard)
+        node.body = [self.visit(stmt) for stmt in node.body]
+        return node
+
     def visit_JoinedStr(self, node: ast.JoinedStr):
         orig_node = node
         transformed: ast.AST = node
